@@ -6,11 +6,15 @@
    For every reachable state and script (whole model, P02.v): the node asks the application for a block signature only
    for the hash of its header - the proposal of its current view held in the primary's slot - and only while its own
    Commit slot is empty.
+   For every history of one initialisation epoch (Start or Reset, then any other API calls, any callback answers) in which
+   the application reports one validator index in its key-pair callbacks and the validator list has at most 2^16 entries
+   (Sign.v, SignEpoch.v): the node asks for at most one block signature, and once it has signed, its own Commit slot keeps
+   that commit - through re-verification of stored commits, view changes and everything else - until the next epoch.
    The remaining site of the lock (a PrepareRequest arriving after the commit) and the history-level clauses (no two
    proposals/responses per view, no two commits per height, view monotonicity, recovery contents) are NOT proved; they
    are decided by the monitors on the real library over the generated histories (DESIGN.md section 0.1). *)
 From Coq Require Import ZArith List.
-From DbftV Require Import P03 P02.
+From DbftV Require Import P03 P02 SignEpoch.
 Open Scope Z_scope.
 
 Definition own_commit_or_precommit_sent (s : nstate) : Prop :=
@@ -57,3 +61,21 @@ Theorem block_signature_only_for_the_proposal_and_only_while_no_own_commit_is_he
   slot (CommitPayloads s) (MyIndex s) = None.
 Proof. exact (signature_only_for_the_proposal_while_uncommitted cfg st ev sc st' tr s h). Qed.
 Print Assumptions block_signature_only_for_the_proposal_and_only_while_no_own_commit_is_held.
+
+(* one block signature per epoch: Epoch st g - st was reached by Start or Reset followed by any calls other than Start/Reset,
+   g is the sequence of callbacks made since; nsign counts the signature requests in it; KS mi g - every key-pair callback in
+   g reported index mi *)
+Theorem an_honest_node_signs_at_most_one_block_per_epoch cfg st g mi :
+  Epoch cfg st g -> KS mi g -> zlen (Validators st) <= 65536 -> (nsign g <= 1)%nat.
+Proof. exact (one_signature_per_epoch cfg st g mi). Qed.
+Print Assumptions an_honest_node_signs_at_most_one_block_per_epoch.
+
+(* once signed, the commit stays in the node's own slot for the rest of the epoch, carries the node's index and key, its view
+   is never ahead of the node's, and while its view is the current one it is a signature of the node's header *)
+Theorem the_signed_commit_is_kept_until_the_next_epoch cfg st g mi :
+  Epoch cfg st g -> KS mi g -> zlen (Validators st) <= 65536 -> nsign g <> 0%nat ->
+  exists c, slot (CommitPayloads st) mi = Some c /\ MyIndex st = mi /\ p_idx c = mi /\ p_view c <= ViewNumber st /\
+            sg_key (commit_sig c) = MyKey st /\
+            (p_view c = ViewNumber st -> exists b, header st = Some b /\ sg_hash (commit_sig c) = block_hash b).
+Proof. exact (signed_commit_is_kept cfg st g mi). Qed.
+Print Assumptions the_signed_commit_is_kept_until_the_next_epoch.
